@@ -77,6 +77,10 @@ type Case struct {
 	// kernel:coalesce cases
 	KCo *CoCase    `json:"kco,omitempty"`
 	KSl *SliceCase `json:"ksl,omitempty"`
+	// kernel:remote cases
+	KRem *RemCase `json:"krem,omitempty"`
+	// kernel:pull cases
+	KPull *PullCase `json:"kpull,omitempty"`
 }
 
 // AccCase: one accumulator reused over a sequence of steps (Reset(arg), then the members).
